@@ -168,6 +168,34 @@ def build_cf(name, patch):
     return B.build("cf-" + name, src_override=override)
 
 
+def build_cf_all(patches):
+    """One binary with every known finding's counterfactual applied at once (name cf-ALL)."""
+    work = os.path.join(VERIF, "build", "cfsrc-ALL")
+    os.makedirs(work, exist_ok=True)
+    per_file = {}
+    for patch in patches:
+        for ln in open(patch):
+            if ln.startswith("+++ "):
+                per_file.setdefault(os.path.basename(ln.split()[1]), []).append(patch)
+    override = {}
+    for f, ps in sorted(per_file.items()):
+        src = os.path.join(B.SRC, f)
+        dst = os.path.join(work, f)
+        stamp = dst + ".from"
+        cur = hashlib.sha1(open(src, "rb").read() + b"".join(open(x, "rb").read() for x in ps)).hexdigest()
+        if not (os.path.exists(dst) and os.path.exists(stamp) and open(stamp).read() == cur):
+            shutil.copy(src, dst)
+            for x in ps:
+                r = subprocess.run(["patch", "-s", "-p2", "--no-backup-if-mismatch", dst, x], capture_output=True, text=True)
+                if r.returncode != 0:
+                    if os.path.exists(dst):
+                        os.remove(dst)
+                    return None
+            open(stamp, "w").write(cur)
+        override[os.path.splitext(f)[0]] = dst
+    return B.build("cf-ALL", src_override=override)
+
+
 def main():
     args = sys.argv[1:]
     if args and args[0] == "--replay":
@@ -290,6 +318,13 @@ def main():
             cf_exes[f["id"]] = build_cf(f["id"], os.path.join(VERIF, f["counterfactual"])) if f.get("counterfactual") else None
         return cf_exes[f["id"]]
 
+    cf_all_exe = []
+    def cf_all():
+        if not cf_all_exe:
+            ps = [os.path.join(VERIF, f["counterfactual"]) for f in kf.get("findings", []) if f.get("counterfactual")]
+            cf_all_exe.append(build_cf_all(ps) if ps else None)
+        return cf_all_exe[0]
+
     def attribute(v, path):
         """Known finding?  The violation must disappear when exactly that call site is neutralised."""
         for f in kf.get("findings", []):
@@ -371,10 +406,34 @@ def main():
                     final = mp
                     # a run can contain a known finding next to something else of the same
                     # class; the minimised history isolates one cause, so ask again
+                    # Minimisation keeps the class, not the cause: it can drift from a new defect
+                    # into a known finding of the same class, and one run can contain several known
+                    # findings at once.  So when the minimised history is attributable, the
+                    # unminimised one is asked again on the binary with EVERY known finding
+                    # neutralised: if the violation is gone there, known findings explain it
+                    # together; if it persists it is new - it is then minimised on that binary (no
+                    # drift possible) and reported if it also fails on the real one, else the
+                    # unminimised history is reported.
                     f2 = attribute(v, mp)
                     if f2:
-                        known_hit[(f2["id"], f2["what"])] += 1
-                        continue
+                        call = cf_all()
+                        rall = replay(call, path)[1] if call else None
+                        if call and rall is not None and not has_viol(rall, prop, v["cls"]):
+                            known_hit[(f2["id"], f2["what"])] += 1
+                            continue
+                        final = path
+                        if call:
+                            subprocess.run([call, "shrink", path, "--prop", prop, "--cls", v["cls"]], capture_output=True, text=True)
+                            mp2 = path + ".min2.json"
+                            if os.path.exists(mp):
+                                os.replace(mp, mp2)
+                                doc = json.load(open(mp2))
+                                doc["binary"] = "san" if d.get("san") else "plain"
+                                json.dump(doc, open(mp2, "w"))
+                                _, rc_, _ = replay(use, mp2)
+                                _, rd_, _ = replay(use, mp2)
+                                if has_viol(rc_, prop, v["cls"]) and has_viol(rd_, prop, v["cls"]) and rc_["hash"] == rd_["hash"] and not attribute(v, mp2):
+                                    final = mp2
         reported.append((v, final))
 
     wall = time.time() - t0
